@@ -16,6 +16,7 @@ import (
 
 // World is what is shared between verification jobs (read-only after load).
 type World struct {
+	retried int // obligations decided only in the second pass (extended time-outs)
 	repo   string
 	prog   *ssa.Program
 	pkgs   map[string]*ssa.Package // by package name (json, proto, ...)
